@@ -25,4 +25,4 @@ require (
 	gopkg.in/yaml.v3 v3.0.1 // indirect
 )
 
-replace github.com/relex/slog-agent => /repo
+replace github.com/relex/slog-agent => /work/repo-C02
